@@ -175,6 +175,13 @@ package service
 //@   props C06 C15 C18
 //@   requires validStreamHandler(h) && ctx != nil && clientConn != nil
 
+//@ func StreamServe.accept
+//@   abstract
+//@   ensures result.1 == nil ==> result.0 != nil
+//@ func StreamServe.handle
+//@   abstract
+//@   params ctx conn
+
 //@ func StreamServe
 //@   props C11 C18
 //@   requires accept != nil && handle != nil
@@ -183,7 +190,7 @@ package service
 //@   props C18
 //@   goroutine
 //@   must-recover
-//@   requires clientConn != nil && handle != nil && running != nil
+//@   requires clientConn != nil && handle != nil
 
 // ---------------------------------------------------------------------------
 // Key list (C01, C18, C19)
